@@ -292,8 +292,26 @@ class Sim:
                 with quiet(), warnings.catch_warnings():
                     warnings.simplefilter('ignore')
                     P.tol.reset()
+                if check and P.excursion:
+                    raise NotApplicable('lens left the representable domain')
                 if check:
                     self.check_restored(P, 'reset')
+                continue
+            if op in ('apply', 'compensate'):
+                # the pieces a run is made of, called by hand (public
+                # methods of Tolerancing / Perturbation)
+                try:
+                    with simopt.patched(P.driver(st.get('seed', 0))), \
+                            quiet(), warnings.catch_warnings():
+                        warnings.simplefilter('ignore')
+                        if op == 'apply':
+                            for pert in P.tol.perturbations:
+                                pert.apply()
+                        else:
+                            P.tol.apply_compensators()
+                except Exception as e:
+                    self.probe(f'manual_step_raised:{type(e).__name__}')
+                self.stats['state_changes'] += 1
                 continue
             try:
                 with simopt.patched(P.driver(st.get('seed', 0))), quiet(), \
@@ -568,6 +586,12 @@ def gen_perturbation(ch, m, mode, harsh):
         if steps == 1 and ch.chance(0.5):
             spec['sampler'] = {'kind': 'range', 'start': nom, 'end': nom,
                                'steps': 1}
+        elif steps in (3, 5) and ch.chance(0.4):
+            # symmetric about the nominal value with a dyadic half-width:
+            # the middle sample is the nominal value exactly
+            d_ = 2.0 ** math.floor(math.log2(max(span, 1e-12)))
+            spec['sampler'] = {'kind': 'range', 'start': nom - d_,
+                               'end': nom + d_, 'steps': steps}
         else:
             spec['sampler'] = {'kind': 'range',
                                'start': r(nom - span * ch.uniform(0.2, 1), 8),
@@ -649,6 +673,10 @@ def run_one(prop, run_seed, run_index, cfg):
     for _ in range(ch.randint(1, 3)):
         o = optsim.gen_operand(ch, m)
         o.pop('target', None)
+        if ch.chance(0.3):
+            # an explicit target instead of "the nominal value"
+            o['target'] = ch.pick([0, 0.0, ch.rounded(ch.uniform(-5, 60), 4)],
+                                  tag='xtarget')
         o['weight'] = ch.pick([1.0, 0.5, 2.0])
         if ch.chance(0.15):
             ks = [k for k in range(1, m.n - 1) if not m.is_plane(k)]
@@ -660,8 +688,16 @@ def run_one(prop, run_seed, run_index, cfg):
         operands.append(o)
     steps = []
     for _ in range(ch.randint(1, cfg.get('max_steps', 4))):
-        k = ch.weighted([('run', 4), ('reset', 1)], tag='tstep')
+        k = ch.weighted([('run', 4), ('reset', 1), ('manual', 0.8)],
+                        tag='tstep')
         if k == 'reset':
+            steps.append({'op': 'reset'})
+        elif k == 'manual':
+            # perturb and compensate by hand, possibly more than once, then
+            # reset
+            steps.append({'op': 'apply'})
+            for _ in range(ch.randint(1, 2)):
+                steps.append({'op': 'compensate', 'seed': ch.seed32()})
             steps.append({'op': 'reset'})
         elif mode == 'sens' and ch.chance(0.6):
             steps.append({'op': 'sens', 'seed': ch.seed32()})
